@@ -65,7 +65,9 @@ class Run:
 
         self.p = p
         self.specs = DP.deployment(**p)
-        self.w = e2e.World(self.specs)
+        # deployments with read_refresh: a plain Read handler refreshes element A "from the hardware" whenever it is read
+        hf = DM.read_refresh_handlers(p["variant"].split("-")[0]) if p.get("read_refresh") else None
+        self.w = e2e.World(self.specs, handlers=hf)
         self.snoop = snoop
         self.kind = p["variant"].split("-")[0]
         self.flags = {"vec": p.get("vec_enabled", True), "grp": p.get("grp_enabled", True)}
